@@ -102,6 +102,15 @@ impl Store {
     }
 
     pub fn insert(&mut self, id: StreamId, val: Stream) -> Ptr<'_> {
+        #[cfg(feature = "verif-hooks")]
+        crate::verif::ev("store.insert", || {
+            vec![
+                val.verif_serial,
+                u32::from(id) as i64,
+                isize::from(val.send_flow.window_size_raw()) as i64,
+                isize::from(val.recv_flow.window_size_raw()) as i64,
+            ]
+        });
         let index = SlabIndex(self.slab.insert(val) as u32);
         assert!(self.ids.insert(id, index).is_none());
 
@@ -472,6 +481,15 @@ impl<'a> OccupiedEntry<'a> {
 
 impl<'a> VacantEntry<'a> {
     pub fn insert(self, value: Stream) -> Key {
+        #[cfg(feature = "verif-hooks")]
+        crate::verif::ev("store.insert", || {
+            vec![
+                value.verif_serial,
+                u32::from(value.id) as i64,
+                isize::from(value.send_flow.window_size_raw()) as i64,
+                isize::from(value.recv_flow.window_size_raw()) as i64,
+            ]
+        });
         // Insert the value in the slab
         let stream_id = value.id;
         let index = SlabIndex(self.slab.insert(value) as u32);
